@@ -139,6 +139,46 @@ def make_exact(cases):
     return fn
 
 
+def tuned_dt_case(ctx, idx, rng):
+    """dt tuned (Newton iteration, krylov_ref.coefficient_zero) so that ONE Krylov coefficient of the local exponential vanishes while later ones are of
+    order one. L = 1 (single-site) and L = 2 (two-site): one local step is the whole evolution, so the manifold is trivially complete and the result must equal
+    expm(-dt H) psi. |dt| ||H|| is 3..12 here (beyond the other workloads), kept bounded in the real direction."""
+    from .. import krylov_ref as kr
+    name = str(rng.choice([k for k in MODELS if MODELS[k][1] is not None]))
+    mk, qd = MODELS[name]
+    d = len(qd)
+    two = bool(idx % 2)
+    L = 2 if two else 1
+    if d ** L < 3:
+        L, two = 2, True
+    secs = sector_list(qd, L)
+    qtot = int(secs[int(rng.integers(0, len(secs)))])
+    H, psi = prepare(rng, name, L, qtot, str(rng.choice(['complex', 'real'])))
+    if psi is None:
+        ctx.case(('tuned-dt', name, 'empty-sector'), nontrivial=False)
+        return
+    mH = refs.dense_operator(H.A)
+    v0 = refs.dense_state(psi.A)
+    hit = kr.coefficient_zero(rng, mH, v0)
+    if hit is None:
+        ctx.case(('tuned-dt', name, f'L{L}', 'no-zero-found'), nontrivial=False)
+        ctx.event('tuned_dt_not_found')
+        return
+    z, k = hit
+    dt = -z                                     # the local step applies exp(-dt H_loc)
+    integ = 'twosite' if two else 'singlesite'
+    fnc = ptn.integrate_local_twosite if two else ptn.integrate_local_singlesite
+    nH = max(np.linalg.norm(mH, 2), 1e-300)
+    ctx.case(('tuned-dt', integ, name, f'L{L}', f'k{min(k, 3)}'), sample={'model': name, 'L': L, 'sector': qtot, 'dt': dt, 'vanishing_coefficient': k, 'abs(dt)*norm(H)': abs(dt) * nH},
+             info={'model': name, 'L': L, 'sector': qtot, 'qD': psi.qD, 'A': psi.A, 'H_A': H.A, 'H_qD': H.qD, 'dt': dt, 'integrator': integ})
+    p, r = run(fnc, H, psi, dt, 1, two)
+    lam, U = np.linalg.eigh((mH + mH.conj().T) / 2)
+    ex = U @ (np.exp(-dt * lam) * (U.conj().T @ v0))
+    got = refs.dense_state(p.A)
+    ctx.close(f'exact-on-complete-manifold[{integ},tuned-dt]', float(np.linalg.norm(got - ex) / np.linalg.norm(ex)), 1e-9 * max(1.0, abs(dt) * nH),
+              'one local step with dt on a zero of a Krylov coefficient: TDVP != expm(-dt H) psi', ctx.cur_info)
+
+
 def reversibility(ctx, idx, rng):
     src = str(rng.choice(['xxz', 'xxz1', 'bose3', 'ising', 'hermitian', 'hermitian', 'nn-pattern']))
     kind = str(rng.choice(['complex', 'real']))
@@ -223,6 +263,7 @@ SPEC = {
         Workload('exactness', EX_Q, quick=len(QUICK_CASES), thorough=0, exhaustive={'space': 'all total-charge sectors of every (model, L<=4)'}),
         Workload('exactness-all', EX_T, quick=0, thorough=len(CASES) * 40, exhaustive={'space': 'all total-charge sectors of every (model, L) within dense reach, 6 repetitions with rotating dt kinds'}),
         Workload('reversibility', reversibility, quick=450, thorough=40000),
+        Workload('tuned-dt', tuned_dt_case, quick=150, thorough=12000),
     ],
     'shards': {'quick': 4, 'thorough': 16},
     'watchdog_s': {'quick': 900, 'thorough': 7200},
